@@ -220,6 +220,13 @@ static int c13_apply(void *p, int op, bool check)
             }
         if (s->unknown_notified)
             SEQX_FAIL("free:unknown-blocker-notified", "a blocker that was already released got notified");
+        if (g_ev) { /* the loop goes on after the pump is gone: nothing of it may fire any more */
+            long before = s->cb_calls;
+            ev_run(s->loop, EVRUN_NOWAIT);
+            ev_run(s->loop, EVRUN_NOWAIT);
+            if (s->cb_calls != before || s->cb_after_free)
+                SEQX_FAIL("callback-after-free", "the loop invoked the callback of a freed pump %ld time(s)", s->cb_calls - before);
+        }
         break;
     }
     }
